@@ -86,16 +86,20 @@ func selfTest(ctx *core.Ctx) error {
 	ctx.Logf("self-test (i): 6 corrupted records rejected, 6 intact ones accepted")
 
 	// (ii) the as-coded variants must violate LookupOK in the model
-	for _, cfg := range []string{"MC_CMap_tuascoded.cfg", "MC_CMap_notdefascoded.cfg"} {
+	for _, cfg := range []string{"MC_CMap_tuascoded.cfg", "MC_CMap_notdefascoded.cfg", "MC_CMap_stackascoded.cfg"} {
 		res, err := ctx.TLC(core.TLCOpts{Dir: "font", Module: "MC_CMap", Cfg: cfg, Workers: 4, Mode: "negative-control"})
 		if err != nil {
 			return err
 		}
-		if res.Invariant != "LookupOK" {
-			return core.Infra("self-test: %s should violate LookupOK, got %q", cfg, res.Invariant)
+		want := "LookupOK"
+		if cfg == "MC_CMap_stackascoded.cfg" {
+			want = "ReadableOK"
+		}
+		if res.Invariant != want {
+			return core.Infra("self-test: %s should violate %s, got %q", cfg, want, res.Invariant)
 		}
 	}
-	ctx.Logf("self-test (ii): the as-coded increment rule and the as-coded notdef lookup violate LookupOK in the model")
+	ctx.Logf("self-test (ii): the as-coded increment rule and notdef lookup violate LookupOK, the as-coded section cutting violates ReadableOK in the model")
 
 	// (iii) a wrong expectation in a table line
 	g := genCase{Kind: "cid", Fam: "cid", Sp: "s1", CSR: []rng{{[]int{0}, []int{3}}},
